@@ -18,7 +18,7 @@ pub fn gen_string(rng: &mut Rng) -> String {
     let len = match rng.below(10) { 0 => 0, 1 => 1, 2 => 2, 3 => 3, _ => rng.range(1, 24) };
     let mut s = String::new();
     for _ in 0..len {
-        let c = match rng.below(16) {
+        let c = match rng.below(17) {
             0..=4 => '%',
             5..=7 => *rng.pick(&['0', '9', 'a', 'f', 'A', 'F', '4', '1', 'c', 'E']),
             8 => *rng.pick(&['g', 'G', 'z', ':', '/', '@', '`', 'x']),
@@ -26,10 +26,13 @@ pub fn gen_string(rng: &mut Rng) -> String {
             10 => *rng.pick(&['é', 'ß', 'я', '\u{80}', '\u{7ff}']),
             11 => *rng.pick(&['€', '\u{800}', '\u{ffff}', '中']),
             12 => *rng.pick(&['😀', '\u{10000}', '\u{10ffff}']),
-            13 => char::from_u32(rng.range(0x21, 0x7e) as u32).unwrap(),
+            // any ASCII byte, incl. controls and the neighbours of hex digits under bit tricks (0x10-0x19, '@', 'G', '`', 'g')
+            13 => char::from_u32(rng.below(0x80) as u32).unwrap(),
+            15 => *rng.pick(&['\x10', '\x11', '\x19', '\x1a', '@', 'G', '`', 'g', '/', ':', '\x16', '\x06', '\x01']),
             14 => *rng.pick(&[';', '?', '&', '=', '+', '$', ',', '-', '_', '.', '!', '~', '*', '\'', '(', ')', '#']),
             _ => '%',
         };
+        let c = if c == '%' && rng.chance(1, 3) { s.push('%'); *rng.pick(&['\x10', '\x15', '\x19', '4', 'a', 'F', 'g', '@', '\x1f', '\x00']) } else { c };
         s.push(c);
     }
     s
